@@ -377,7 +377,7 @@ def replay(rec) -> int:
 
 META = {
     'technique': 'TLC-checked product models (Connectable.tla with several applications, Reuse.tla over the Ops1 transducers) replayed with ONE real operator object applied to all sources; differential shared-vs-fresh comparison for factories without a model',
-    'level': 'Both modules give every application of the operator object its own state and TLC checks, besides the per-application invariants of C24 / Ops1 (including transducer = reference), the invariant Independent: the interleaved run projected on one application equals the run of that application alone. Every enumerated scenario (histories of subscribe/unsubscribe/connect/disconnect over 2-3 sources for the multicasting operators; staggered subscriptions for 65 element-wise and aggregate factories) is performed with a single real operator object and each application must show exactly its independent expected observation. A clearly separated differential part compares shared-object and fresh-object runs for about 70 further factories without an operator model.',
+    'level': 'Both modules give every application of the operator object its own state and TLC checks, besides the per-application invariants of C24 / Ops1 (including transducer = reference), the invariant Independent: the interleaved run projected on one application equals the run of that application alone. Every enumerated scenario (histories of subscribe/unsubscribe/connect/disconnect over 2-3 sources for the multicasting operators; staggered subscriptions for 65 element-wise and aggregate factories) is performed with a single real operator object and each application must show exactly its independent expected observation. A clearly separated differential part compares shared-object and fresh-object runs for about 70 further factories without an operator model, the 17 time-based ones also with one scheduler per application (clocks not in lockstep).',
     'note': 'TLC; codecs of props/connect_common.py and props/ops1_common.py; TestScheduler (C28); the differential part certifies equality only',
     'ref': 'DESIGN.md 6 C44, D.9',
 }
